@@ -1,15 +1,49 @@
 package main
 
 // Family "gointerop" (C10): records <-> registered Go structs.
-// (work in progress: debug subcommand and dumper first)
+//
+// A case is one record graph (records have identity: a record may be
+// referenced from several places, or reach itself), built on the real
+// interpreter from script text, and one conversion of its root record:
+//
+//   kind "fwd"    (togo r): the Go value attached to the record is dumped by
+//                 reflection into the canonical abstract form of
+//                 spec/GoInterop.tla (tagged tuples, one value per declared
+//                 field, pointer identities renamed in first-visit order);
+//   kind "echo"   (_method host EchoX: r) with the identity methods of
+//                 gointerop_types.go: the Go value the method received (the
+//                 implicit conversion of a method argument) in the same form,
+//                 and the record the library made of the returned pointer;
+//   kind "echo0"  the same through the library's Snoopy.EchoWeather.
+//   kind "types"  the struct declarations as reflection sees them (first
+//                 line of every trace; GoInteropTrace compares them with the
+//                 constants of the specification).
+//
+// The converter ranges over Go maps, so the order in which it meets the
+// fields of a record varies from call to call; a graph in which a record is
+// referenced more than once is therefore converted several times (from
+// freshly built records) and every distinct outcome is recorded.  Graphs
+// that reach themselves are converted in a child process (the pinned code
+// dies of a stack overflow, which cannot be recovered in-process).
+//
+// The expected Go value is NOT computed here: TLC evaluates Fill on the graph
+// (spec/GoInteropTrace.tla).  The generators only know the Go declarations
+// (by reflection) in order to build records of every shape.
 
 import (
+	"bytes"
 	"encoding/json"
+	"flag"
 	"fmt"
+	"os"
+	"os/exec"
 	"reflect"
+	"runtime/debug"
 	"sort"
+	"strconv"
 	"strings"
 	"time"
+	"unicode"
 
 	zygo "github.com/glycerine/zygomys/v9/zygo"
 )
@@ -66,7 +100,7 @@ func (d *giDumper) val(v reflect.Value) any {
 		type kv struct {
 			ks string
 			k  any
-			v  any
+			v  reflect.Value
 		}
 		var kvs []kv
 		it := v.MapRange()
@@ -78,7 +112,7 @@ func (d *giDumper) val(v reflect.Value) any {
 		sort.Slice(kvs, func(i, j int) bool { return kvs[i].ks < kvs[j].ks })
 		ps := []any{}
 		for _, e := range kvs {
-			ps = append(ps, []any{e.k, d.val(e.v.(reflect.Value))})
+			ps = append(ps, []any{e.k, d.val(e.v)})
 		}
 		return []any{"map", ps}
 	case reflect.Struct:
@@ -87,7 +121,7 @@ func (d *giDumper) val(v reflect.Value) any {
 		}
 		fs := []any{}
 		for i := 0; i < v.NumField(); i++ {
-			fs = append(fs, []any{v.Type().Field(i).Name, d.val(v.Field(i))})
+			fs = append(fs, d.val(v.Field(i)))
 		}
 		return []any{"struct", v.Type().Name(), fs}
 	case reflect.Ptr:
@@ -112,37 +146,1502 @@ func (d *giDumper) val(v reflect.Value) any {
 	return []any{"other", v.Kind().String()}
 }
 
-// giDump renders a Go value (normally a pointer to a family struct).
+// giDump renders a Go value (a pointer to a family struct).
 func giDump(x any) (root any, objs []any) {
 	d := newGiDumper()
 	root = d.val(reflect.ValueOf(x))
+	if d.objs == nil {
+		d.objs = []any{}
+	}
 	return root, d.objs
 }
 
-// ---------------------------------------------------------------- interpreter
+// ---------------------------------------------------------------- projection of a record that came back
+
+func giProj(x zygo.Sexp, depth int) any {
+	if depth > 12 {
+		return []any{"other", "deep"}
+	}
+	switch v := x.(type) {
+	case *zygo.SexpSentinel:
+		if v == zygo.SexpNull {
+			return []any{"nil"}
+		}
+		return []any{"other", "sentinel"}
+	case *zygo.SexpInt:
+		return projInt(v.Val)
+	case *zygo.SexpFloat:
+		return []any{"flt", fmtFloat(v.Val)}
+	case *zygo.SexpStr:
+		return []any{"str", v.S}
+	case *zygo.SexpBool:
+		return []any{"bool", v.Val}
+	case *zygo.SexpChar:
+		return []any{"chr", int64(v.Val)}
+	case *zygo.SexpRaw:
+		bs := []any{}
+		for _, b := range v.Val {
+			bs = append(bs, int(b))
+		}
+		return []any{"raw", bs}
+	case *zygo.SexpTime:
+		return giTimeIndex(v.Tm)
+	case *zygo.SexpArray:
+		xs := []any{}
+		for _, e := range v.Val {
+			xs = append(xs, giProj(e, depth+1))
+		}
+		return []any{"arr", xs}
+	case *zygo.SexpHash:
+		pairs := []any{}
+		for _, k := range v.KeyOrder {
+			val, err := v.HashGet(nil, k)
+			if err != nil {
+				continue
+			}
+			var key any
+			switch kk := k.(type) {
+			case *zygo.SexpSymbol:
+				key = []any{"sym", kk.Name()}
+			case *zygo.SexpStr:
+				key = []any{"str", kk.S}
+			case *zygo.SexpInt:
+				key = projInt(kk.Val)
+			default:
+				key = []any{"other", fmt.Sprintf("%T", k)}
+			}
+			if v.TypeName != "hash" {
+				key = key.([]any)[1]
+				if _, isS := key.(string); !isS {
+					key = fmt.Sprint(key)
+				}
+			}
+			pairs = append(pairs, []any{key, giProj(val, depth+1)})
+		}
+		if v.TypeName == "hash" {
+			return []any{"hash", pairs}
+		}
+		return []any{"rec", v.TypeName, pairs}
+	}
+	return []any{"other", fmt.Sprintf("%T", x)}
+}
+
+// ---------------------------------------------------------------- script values and record graphs
+
+// giVal is a script value; JSON form = the tagged tuple of the specification.
+type giVal struct {
+	K  string   // int flt str bool chr nil raw time arr hash ref
+	N  int64    // int, chr, time index, ref (node number, 1-based)
+	S  string   // flt (canonical spelling), str
+	B  bool     // bool
+	Bs []byte   // raw
+	Xs []giVal  // arr
+	Ps []giPair // hash
+}
+
+type giPair struct {
+	KK string // sym | str | int
+	KS string
+	KN int64
+	V  giVal
+}
+
+type giField struct {
+	Key string
+	Str bool // written as a string key "k": instead of the symbol k:
+	V   giVal
+}
+
+type giNode struct {
+	Tn string
+	Fs []giField
+}
+
+type giGraph struct {
+	Nodes []giNode
+	Root  int // 1-based
+}
+
+func giInt(n int64) giVal     { return giVal{K: "int", N: n} }
+func giFlt(s string) giVal    { return giVal{K: "flt", S: s} }
+func giStr(s string) giVal    { return giVal{K: "str", S: s} }
+func giBool(b bool) giVal     { return giVal{K: "bool", B: b} }
+func giChr(c rune) giVal      { return giVal{K: "chr", N: int64(c)} }
+func giNil() giVal            { return giVal{K: "nil"} }
+func giRaw(s string) giVal    { return giVal{K: "raw", Bs: []byte(s)} }
+func giTm(i int) giVal        { return giVal{K: "time", N: int64(i)} }
+func giArr(xs ...giVal) giVal { return giVal{K: "arr", Xs: xs} }
+func giRef(j int) giVal       { return giVal{K: "ref", N: int64(j)} }
+
+// giHash builds a plain hash; pairs are kept in the order of the canonical dump
+// (JSON text of the Go key), which is the order Fill lists them in.
+func giHash(ps ...giPair) giVal {
+	cp := append([]giPair(nil), ps...)
+	sort.SliceStable(cp, func(i, j int) bool { return cp[i].goKeyText() < cp[j].goKeyText() })
+	return giVal{K: "hash", Ps: cp}
+}
+func giPSym(k string, v giVal) giPair { return giPair{KK: "sym", KS: k, V: v} }
+func giPStr(k string, v giVal) giPair { return giPair{KK: "str", KS: k, V: v} }
+func giPInt(k int64, v giVal) giPair  { return giPair{KK: "int", KN: k, V: v} }
+
+func (p giPair) goKeyText() string {
+	var k any
+	if p.KK == "int" {
+		k = projInt(p.KN)
+	} else {
+		k = []any{"str", p.KS}
+	}
+	b, _ := json.Marshal(k)
+	return string(b)
+}
+
+func (v giVal) tagged() any {
+	switch v.K {
+	case "int", "chr", "time", "ref":
+		return []any{v.K, v.N}
+	case "flt", "str":
+		return []any{v.K, v.S}
+	case "bool":
+		return []any{v.K, v.B}
+	case "nil":
+		return []any{"nil"}
+	case "raw":
+		bs := []any{}
+		for _, b := range v.Bs {
+			bs = append(bs, int(b))
+		}
+		return []any{"raw", bs}
+	case "arr":
+		xs := []any{}
+		for _, e := range v.Xs {
+			xs = append(xs, e.tagged())
+		}
+		return []any{"arr", xs}
+	case "hash":
+		ps := []any{}
+		for _, p := range v.Ps {
+			var k any
+			if p.KK == "int" {
+				k = []any{"int", p.KN}
+			} else {
+				k = []any{p.KK, p.KS}
+			}
+			ps = append(ps, []any{k, p.V.tagged()})
+		}
+		return []any{"hash", ps}
+	}
+	return []any{"bad", v.K}
+}
+
+func (g *giGraph) tagged() any {
+	ns := []any{}
+	for _, n := range g.Nodes {
+		fs := []any{}
+		for _, f := range n.Fs {
+			fs = append(fs, []any{f.Key, f.V.tagged()})
+		}
+		ns = append(ns, []any{n.Tn, fs})
+	}
+	return ns
+}
+
+func (v giVal) refs(out *[]int) {
+	switch v.K {
+	case "ref":
+		*out = append(*out, int(v.N))
+	case "arr":
+		for _, e := range v.Xs {
+			e.refs(out)
+		}
+	case "hash":
+		for _, p := range v.Ps {
+			p.V.refs(out)
+		}
+	}
+}
+
+// shared reports whether some record is referenced more than once; cyclic whether a record reaches itself.
+func (g *giGraph) shape() (shared, cyclic bool) {
+	cnt := map[int]int{}
+	succ := map[int][]int{}
+	for i, n := range g.Nodes {
+		var rs []int
+		for _, f := range n.Fs {
+			f.V.refs(&rs)
+		}
+		succ[i+1] = rs
+		for _, r := range rs {
+			cnt[r]++
+			if cnt[r] > 1 {
+				shared = true
+			}
+		}
+	}
+	state := map[int]int{}
+	var dfs func(j int)
+	dfs = func(j int) {
+		state[j] = 1
+		for _, k := range succ[j] {
+			if state[k] == 1 {
+				cyclic = true
+			} else if state[k] == 0 {
+				dfs(k)
+			}
+		}
+		state[j] = 2
+	}
+	dfs(g.Root)
+	return
+}
+
+// ---- script text
+
+func giFltSpelling(s string) string {
+	if strings.ContainsAny(s, ".eE") {
+		return s
+	}
+	return s + ".0"
+}
+
+func (v giVal) text(sfx string) string {
+	switch v.K {
+	case "int":
+		return strconv.FormatInt(v.N, 10)
+	case "flt":
+		return giFltSpelling(v.S)
+	case "str":
+		return strconv.Quote(v.S)
+	case "bool":
+		if v.B {
+			return "true"
+		}
+		return "false"
+	case "chr":
+		return "'" + string(rune(v.N)) + "'"
+	case "nil":
+		return "nil"
+	case "raw":
+		return "(raw " + strconv.Quote(string(v.Bs)) + ")"
+	case "time":
+		return fmt.Sprintf("tm%d", v.N)
+	case "arr":
+		parts := []string{}
+		for _, e := range v.Xs {
+			parts = append(parts, e.text(sfx))
+		}
+		return "[" + strings.Join(parts, " ") + "]"
+	case "hash":
+		parts := []string{}
+		for _, p := range v.Ps {
+			var k string
+			switch p.KK {
+			case "sym":
+				k = p.KS + ":"
+			case "str":
+				k = strconv.Quote(p.KS) + ":"
+			default:
+				k = strconv.FormatInt(p.KN, 10) + ":"
+			}
+			parts = append(parts, k+p.V.text(sfx))
+		}
+		return "(hash " + strings.Join(parts, " ") + ")"
+	case "ref":
+		return fmt.Sprintf("n%d%s", v.N, sfx)
+	}
+	return "nil"
+}
+
+func (f giField) keyText() string {
+	if f.Str {
+		return strconv.Quote(f.Key) + ":"
+	}
+	return f.Key + ":"
+}
+
+// text builds the graph: records whose references are all defined go through
+// the record constructor; a field that refers to a record defined later (a
+// cycle) is set afterwards with hset.
+func (g *giGraph) text(sfx string) string {
+	var sb strings.Builder
+	defined := map[int]bool{}
+	visiting := map[int]bool{}
+	type later struct {
+		node int
+		f    giField
+	}
+	var deferred []later
+	var emit func(j int)
+	emit = func(j int) {
+		if defined[j] || visiting[j] {
+			return
+		}
+		visiting[j] = true
+		n := g.Nodes[j-1]
+		for _, f := range n.Fs {
+			var rs []int
+			f.V.refs(&rs)
+			for _, r := range rs {
+				emit(r)
+			}
+		}
+		parts := []string{}
+		for _, f := range n.Fs {
+			var rs []int
+			f.V.refs(&rs)
+			ok := true
+			for _, r := range rs {
+				if !defined[r] {
+					ok = false
+				}
+			}
+			if ok {
+				parts = append(parts, f.keyText()+f.V.text(sfx))
+			} else {
+				deferred = append(deferred, later{j, f})
+			}
+		}
+		fmt.Fprintf(&sb, "(def n%d%s (%s %s))\n", j, sfx, n.Tn, strings.Join(parts, " "))
+		defined[j] = true
+		visiting[j] = false
+	}
+	emit(g.Root)
+	for _, d := range deferred {
+		k := d.f.Key + ":"
+		if d.f.Str {
+			k = strconv.Quote(d.f.Key)
+		}
+		fmt.Fprintf(&sb, "(hset n%d%s %s %s)\n", d.node, sfx, k, d.f.V.text(sfx))
+	}
+	return sb.String()
+}
+
+// ---------------------------------------------------------------- the Go declarations, by reflection
+
+var giIfaces = map[string]reflect.Type{
+	"ZvAny": reflect.TypeOf((*ZvAny)(nil)).Elem(),
+	"Flyer": reflect.TypeOf((*zygo.Flyer)(nil)).Elem(),
+}
+
+// every struct of the specification's table: registered name ("" for structs that only occur embedded)
+var giStructs = []struct {
+	reg string
+	typ reflect.Type
+}{
+	{"zvleaf", reflect.TypeOf(ZvLeaf{})}, {"zvodd", reflect.TypeOf(ZvOdd{})}, {"zvbox", reflect.TypeOf(ZvBox{})},
+	{"", reflect.TypeOf(ZvBase{})}, {"", reflect.TypeOf(ZvDeep{})}, {"", reflect.TypeOf(ZvBase2{})},
+	{"zvnode", reflect.TypeOf(ZvNode{})}, {"zvwrap", reflect.TypeOf(ZvWrap{})}, {"zvhost", reflect.TypeOf(ZvHost{})},
+	{"zvpair", reflect.TypeOf(ZvPair{})}, {"zvemb", reflect.TypeOf(ZvEmb{})},
+	{"persondemo", reflect.TypeOf(zygo.Person{})}, {"eventdemo", reflect.TypeOf(zygo.Event{})},
+	{"", reflect.TypeOf(zygo.Wings{})}, {"plane", reflect.TypeOf(zygo.Plane{})}, {"snoopy", reflect.TypeOf(zygo.Snoopy{})},
+	{"hornet", reflect.TypeOf(zygo.Hornet{})}, {"hellcat", reflect.TypeOf(zygo.Hellcat{})},
+	{"weather", reflect.TypeOf(zygo.Weather{})}, {"setOfPlanes", reflect.TypeOf(zygo.SetOfPlanes{})},
+	{"nestouter", reflect.TypeOf(zygo.NestOuter{})}, {"nestinner", reflect.TypeOf(zygo.NestInner{})},
+}
+
+func giRegOf(t reflect.Type) string {
+	for _, s := range giStructs {
+		if s.typ == t {
+			return s.reg
+		}
+	}
+	return ""
+}
+
+func giTypeOfReg(reg string) reflect.Type {
+	for _, s := range giStructs {
+		if s.reg == reg {
+			return s.typ
+		}
+	}
+	return nil
+}
+
+func giLowerFirst(s string) string {
+	r := []rune(s)
+	r[0] = unicode.ToLower(r[0])
+	return string(r)
+}
+
+// giKeys: the record keys a field answers to -- its json tag, else its name or
+// the name with a lower-case first letter (the converter capitalises the key).
+func giKeys(f reflect.StructField) []string {
+	if tag := f.Tag.Get("json"); tag != "" {
+		return []string{tag}
+	}
+	return []string{f.Name, giLowerFirst(f.Name)}
+}
+
+func giTypeEnc(t reflect.Type) any {
+	switch t.Kind() {
+	case reflect.Bool, reflect.String, reflect.Int, reflect.Int8, reflect.Int16, reflect.Int32, reflect.Int64,
+		reflect.Uint, reflect.Uint8, reflect.Uint16, reflect.Uint32, reflect.Uint64, reflect.Float32, reflect.Float64:
+		return []any{"basic", t.Kind().String()}
+	case reflect.Struct:
+		if t == giTimeType {
+			return []any{"time"}
+		}
+		return []any{"struct", t.Name()}
+	case reflect.Ptr:
+		return []any{"ptr", t.Elem().Name()}
+	case reflect.Interface:
+		return []any{"iface", t.Name()}
+	case reflect.Slice:
+		if t.Elem().Kind() == reflect.Uint8 {
+			return []any{"bytes"}
+		}
+		return []any{"slice", giTypeEnc(t.Elem())}
+	case reflect.Map:
+		return []any{"map", t.Key().Kind().String(), giTypeEnc(t.Elem())}
+	}
+	return []any{"other", t.String()}
+}
+
+func giTypesCase(env *zygo.Zlisp) map[string]any {
+	structs := map[string]any{}
+	pkg := map[string]any{}
+	for _, s := range giStructs {
+		fs := []any{}
+		for i := 0; i < s.typ.NumField(); i++ {
+			f := s.typ.Field(i)
+			fs = append(fs, []any{f.Name, giKeys(f), giTypeEnc(f.Type), f.Anonymous})
+		}
+		structs[s.typ.Name()] = fs
+		pp := strings.Split(s.typ.PkgPath(), "/")
+		pkg[s.typ.Name()] = pp[len(pp)-1]
+	}
+	reg := map[string]any{}
+	impl := map[string][]string{"ZvAny": {}, "Flyer": {}}
+	for _, s := range giStructs {
+		if s.reg == "" {
+			continue
+		}
+		rt := zygo.GoStructRegistry.Lookup(s.reg)
+		name := "?"
+		if rt != nil {
+			if v, err := rt.Factory(env, nil); err == nil && v != nil {
+				t := reflect.TypeOf(v)
+				if t.Kind() == reflect.Ptr {
+					name = t.Elem().Name()
+					for in, it := range giIfaces {
+						if t.Implements(it) {
+							impl[in] = append(impl[in], name)
+						}
+					}
+				}
+			}
+		}
+		reg[s.reg] = name
+	}
+	for _, v := range impl {
+		sort.Strings(v)
+	}
+	return map[string]any{"id": "types", "kind": "types", "structs": structs, "reg": reg, "impl": impl, "pkg": pkg}
+}
+
+// ---------------------------------------------------------------- interpreter and one conversion
 
 func newGiEnv() *zygo.Zlisp {
 	giRegister()
 	env := zygo.NewZlisp()
 	env.StandardSetup()
+	env.ImportDemoData()
 	for i, t := range giTimes {
 		env.AddGlobal(fmt.Sprintf("tm%d", i+1), &zygo.SexpTime{Tm: t})
 	}
 	return env
 }
 
+type giCase struct {
+	ID   string `json:"id"`
+	Kind string `json:"kind"` // fwd | echo | echo0
+	Via  string `json:"via,omitempty"`
+	Root int    `json:"root"`
+	Sfx  string `json:"sfx"`
+	G    any    `json:"g"`
+	Text string `json:"text"`
+	Cyc  bool   `json:"cyc,omitempty"`
+	Try  int    `json:"tries"`
+	Res  []any  `json:"res"`
+	Note string `json:"note,omitempty"`
+}
+
+func giEchoOf(tn string) string {
+	for _, t := range giTypes {
+		if t.name == tn {
+			return t.echo
+		}
+	}
+	return ""
+}
+
+// giAttempt builds the graph from text and converts its root once.
+func giAttempt(env *zygo.Zlisp, c *giCase) any {
+	o := evalSafe(env, c.Text)
+	if o.Kind != "val" {
+		return []any{"builderr", trunc(o.Err, 200)}
+	}
+	root := fmt.Sprintf("n%d%s", c.Root, c.Sfx)
+	switch c.Kind {
+	case "fwd":
+		o = evalSafe(env, "(togo "+root+")\n")
+		switch o.Kind {
+		case "val":
+			x, ok := env.FindObject(root)
+			h, isH := x.(*zygo.SexpHash)
+			if !ok || !isH || !h.ShadowSet || h.GoShadowStruct == nil {
+				return []any{"noshadow"}
+			}
+			r, objs := giDump(h.GoShadowStruct)
+			return []any{"ok", r, objs}
+		case "err":
+			return []any{"err"}
+		}
+		return []any{o.Kind, trunc(o.Err, 200)}
+	case "echo":
+		giLastArg = nil
+		o = evalSafe(env, "(def zvh (zvhost))\n(_method zvh "+c.Via+": "+root+")\n")
+		switch o.Kind {
+		case "val":
+			arr, isA := o.Val.(*zygo.SexpArray)
+			if !isA || len(arr.Val) != 1 || giLastArg == nil {
+				return []any{"badresult"}
+			}
+			r, objs := giDump(giLastArg)
+			return []any{"ok", r, objs, giProj(arr.Val[0], 0)}
+		case "err":
+			if giLastArg == nil {
+				return []any{"argerr"}
+			}
+			r, objs := giDump(giLastArg)
+			return []any{"reterr", r, objs}
+		}
+		return []any{o.Kind, trunc(o.Err, 200)}
+	case "echo0":
+		o = evalSafe(env, "(def zvs (snoopy cry:\"c\"))\n(_method zvs EchoWeather: "+root+")\n")
+		switch o.Kind {
+		case "val":
+			arr, isA := o.Val.(*zygo.SexpArray)
+			if !isA || len(arr.Val) != 1 {
+				return []any{"badresult"}
+			}
+			return []any{"ok0", giProj(arr.Val[0], 0)}
+		case "err":
+			return []any{"err0"}
+		}
+		return []any{o.Kind, trunc(o.Err, 200)}
+	}
+	return []any{"badkind"}
+}
+
+// giRun fills c.Res: the distinct outcomes over c.Try attempts.
+func giRun(env *zygo.Zlisp, c *giCase) {
+	if c.Cyc {
+		c.Res = []any{giRunChild(c)}
+		return
+	}
+	seen := map[string]bool{}
+	var keys []string
+	outs := map[string]any{}
+	for i := 0; i < c.Try; i++ {
+		r := giAttempt(env, c)
+		b, _ := json.Marshal(r)
+		if !seen[string(b)] {
+			seen[string(b)] = true
+			keys = append(keys, string(b))
+			outs[string(b)] = r
+		}
+	}
+	sort.Strings(keys)
+	c.Res = nil
+	for _, k := range keys {
+		c.Res = append(c.Res, outs[k])
+	}
+}
+
+// giRunChild converts in a child process; a dead child is the outcome "crash".
+func giRunChild(c *giCase) any {
+	exe, err := os.Executable()
+	if err != nil {
+		fatal("executable: %v", err)
+	}
+	in, _ := json.Marshal(c)
+	cmd := exec.Command(exe, "gointerop", "-worker")
+	cmd.Stdin = bytes.NewReader(in)
+	var out bytes.Buffer
+	cmd.Stdout = &out
+	done := make(chan error, 1)
+	if err := cmd.Start(); err != nil {
+		fatal("start worker: %v", err)
+	}
+	go func() { done <- cmd.Wait() }()
+	select {
+	case err = <-done:
+	case <-time.After(120 * time.Second):
+		cmd.Process.Kill()
+		return []any{"timeout"}
+	}
+	if err != nil {
+		return []any{"crash"}
+	}
+	// the library prints diagnostics on stdout: the outcome is the last line
+	lines := strings.Split(strings.TrimSpace(out.String()), "\n")
+	var r []any
+	if json.Unmarshal([]byte(lines[len(lines)-1]), &r) != nil {
+		return []any{"crash"}
+	}
+	return r
+}
+
+func giWorker() int {
+	debug.SetMaxStack(4 << 20)
+	var c giCase
+	if err := json.NewDecoder(os.Stdin).Decode(&c); err != nil {
+		fatal("worker: %v", err)
+	}
+	env := newGiEnv()
+	r := giAttempt(env, &c)
+	b, _ := json.Marshal(r)
+	fmt.Printf("\n%s\n", b)
+	return 0
+}
+
+// ---------------------------------------------------------------- generators
+
+type giGen struct {
+	r     *rng
+	cases []*giCase
+	n     int
+	ng    int
+	seen  map[string]bool
+}
+
+// add registers the conversions of one graph: togo, and the identity method where there is one.
+func (gg *giGen) add(tag string, g *giGraph, note string) {
+	plain := g.text("")
+	if gg.seen[plain] {
+		return
+	}
+	gg.seen[plain] = true
+	gg.ng++
+	sfx := fmt.Sprintf("_%d", gg.ng)
+	text := g.text(sfx)
+	shared, cyc := g.shape()
+	tries := 1
+	if shared {
+		tries = 40
+	}
+	rootTn := g.Nodes[g.Root-1].Tn
+	mk := func(kind, via string) {
+		gg.n++
+		gg.cases = append(gg.cases, &giCase{ID: fmt.Sprintf("%s-%d-%s", tag, gg.n, kind), Kind: kind, Via: via,
+			Root: g.Root, Sfx: sfx, G: g.tagged(), Text: text, Cyc: cyc, Try: tries, Note: note})
+	}
+	mk("fwd", "")
+	if e := giEchoOf(rootTn); e != "" {
+		mk("echo", e)
+	} else if rootTn == "weather" {
+		mk("echo0", "EchoWeather")
+	}
+}
+
+// builder of graphs
+type giGb struct{ g giGraph }
+
+func newGiGb() *giGb { return &giGb{} }
+func (b *giGb) rec(tn string, fs ...giField) giVal {
+	b.g.Nodes = append(b.g.Nodes, giNode{Tn: tn, Fs: fs})
+	return giRef(len(b.g.Nodes))
+}
+func (b *giGb) set(ref giVal, fs ...giField) {
+	n := &b.g.Nodes[ref.N-1]
+	n.Fs = append(n.Fs, fs...)
+}
+func (b *giGb) graph(root giVal) *giGraph {
+	g := b.g
+	g.Root = int(root.N)
+	return &g
+}
+func giFld(k string, v giVal) giField  { return giField{Key: k, V: v} }
+func giFldS(k string, v giVal) giField { return giField{Key: k, Str: true, V: v} }
+
+// a flattened field of a struct: the key to use and its Go type
+type giFlat struct {
+	key  string
+	alt  string // second accepted key ("" if none)
+	typ  reflect.Type
+	name string
+}
+
+func giFlatten(t reflect.Type) []giFlat {
+	var out []giFlat
+	for i := 0; i < t.NumField(); i++ {
+		f := t.Field(i)
+		if f.Anonymous {
+			out = append(out, giFlatten(f.Type)...)
+			continue
+		}
+		ks := giKeys(f)
+		fl := giFlat{key: ks[0], typ: f.Type, name: f.Name}
+		if len(ks) > 1 {
+			fl.alt = ks[1]
+		}
+		out = append(out, fl)
+	}
+	return out
+}
+
+var giIntPal = []int64{0, 1, -1, 7, 42, 127, -128}
+var giFltPal = []string{"1.5", "-0.25", "2", "0"}
+var giStrPal = []string{"", "x", "hello world", "a\"b"}
+var giRawPal = []string{"", "hi", "a b\tc"}
+
+// leafish: small records of a registered type (content index k)
+func (b *giGb) small(reg string, k int) giVal {
+	switch reg {
+	case "zvleaf":
+		switch k % 3 {
+		case 0:
+			return b.rec("zvleaf", giFld("i", giInt(7)))
+		case 1:
+			return b.rec("zvleaf", giFld("s", giStr("x")), giFld("f", giFlt("1.5")), giFld("plain", giStr("p")))
+		}
+		return b.rec("zvleaf")
+	case "zvodd":
+		return b.rec("zvodd", giFld("i8", giInt(5)), giFld("r", giChr('a')))
+	case "zvbox":
+		return b.rec("zvbox", giFld("ints", giArr(giInt(1), giInt(2))), giFld("raw", giRaw("hi")))
+	case "zvnode":
+		if k%2 == 0 {
+			return b.rec("zvnode", giFld("name", giStr("k")), giFld("id", giInt(9)))
+		}
+		return b.rec("zvnode", giFld("note", giStr("nt")))
+	case "zvwrap":
+		return b.rec("zvwrap", giFld("deep", giInt(1)), giFld("tail", giStr("t")), giFld("name", giStr("w")))
+	case "zvpair":
+		return b.rec("zvpair", giFld("l", giStr("pl")))
+	case "zvemb":
+		return b.rec("zvemb", giFld("x", giStr("ex")), giFld("id", giInt(3)))
+	case "zvhost":
+		return b.rec("zvhost", giFld("n", giInt(1)))
+	case "hellcat":
+		return b.rec("hellcat", giFld("speed", giInt(567)))
+	case "hornet":
+		return b.rec("hornet", giFld("mass", giFlt("1.5")), giFld("nickname", giStr("bob")), giFld("SpanCm", giInt(12)))
+	case "snoopy":
+		return b.rec("snoopy", giFld("cry", giStr("yowza")), giFld("pack", giArr(giInt(8), giInt(9))))
+	case "persondemo":
+		return b.rec("persondemo", giFld("first", giStr("a")), giFld("last", giStr("b")))
+	case "nestinner":
+		return b.rec("nestinner", giFld("hello", giStr("myname")))
+	case "weather":
+		return b.rec("weather", giFld("type", giStr("sunny")), giFld("size", giInt(12)))
+	case "nestouter":
+		return b.rec("nestouter", giFld("inner", b.small("nestinner", 0)))
+	case "plane":
+		return b.rec("plane", giFld("speed", giInt(3)))
+	}
+	return b.rec(reg)
+}
+
+func giImplementers(it reflect.Type) []string {
+	var out []string
+	for _, s := range giStructs {
+		if s.reg != "" && reflect.PtrTo(s.typ).Implements(it) {
+			out = append(out, s.reg)
+		}
+	}
+	return out
+}
+
+// valid candidate values of a Go type (each call builds fresh records in b)
+func (b *giGb) candidates(t reflect.Type, depth int) []func() giVal {
+	c := func(v giVal) func() giVal { return func() giVal { return v } }
+	var out []func() giVal
+	switch t.Kind() {
+	case reflect.Int, reflect.Int64, reflect.Int32:
+		for _, n := range giIntPal {
+			out = append(out, c(giInt(n)))
+		}
+		out = append(out, c(giInt(300)))
+		if t.Kind() == reflect.Int32 {
+			out = append(out, c(giChr('a')))
+		}
+	case reflect.Int8:
+		for _, n := range []int64{0, 5, -128, 127} {
+			out = append(out, c(giInt(n)))
+		}
+	case reflect.Uint, reflect.Uint8:
+		out = append(out, c(giInt(5)), c(giInt(0)))
+	case reflect.Float64:
+		for _, s := range giFltPal {
+			out = append(out, c(giFlt(s)))
+		}
+		out = append(out, c(giInt(7)), c(giInt(-1)))
+	case reflect.Float32:
+		out = append(out, c(giFlt("1.5")), c(giFlt("-0.25")), c(giFlt("2")))
+	case reflect.String:
+		for _, s := range giStrPal {
+			out = append(out, c(giStr(s)))
+		}
+	case reflect.Bool:
+		out = append(out, c(giBool(true)), c(giBool(false)))
+	case reflect.Struct:
+		if t == giTimeType {
+			return []func() giVal{c(giTm(1)), c(giTm(2)), c(giTm(3))}
+		}
+		reg := giRegOf(t)
+		for k := 0; k < 3; k++ {
+			k := k
+			out = append(out, func() giVal { return b.small(reg, k) })
+		}
+	case reflect.Ptr:
+		reg := giRegOf(t.Elem())
+		out = append(out, c(giNil()))
+		for k := 0; k < 2; k++ {
+			k := k
+			out = append(out, func() giVal { return b.small(reg, k) })
+		}
+	case reflect.Interface:
+		out = append(out, c(giNil()))
+		for _, reg := range giImplementers(t) {
+			reg := reg
+			out = append(out, func() giVal { return b.small(reg, 0) })
+		}
+	case reflect.Slice:
+		if t.Elem().Kind() == reflect.Uint8 {
+			for _, s := range giRawPal {
+				out = append(out, c(giRaw(s)))
+			}
+			out = append(out, c(giNil()))
+			return out
+		}
+		out = append(out, c(giNil()), c(giArr()))
+		if depth < 3 {
+			el := b.candidates(t.Elem(), depth+1)
+			for i := range el {
+				i := i
+				out = append(out, func() giVal { return giArr(el[i]()) })
+			}
+			if len(el) >= 2 {
+				out = append(out, func() giVal { return giArr(el[0](), el[len(el)-1](), el[1]()) })
+			}
+		}
+	case reflect.Map:
+		out = append(out, c(giNil()), c(giHash()))
+		el := b.candidates(t.Elem(), depth+1)
+		if t.Key().Kind() == reflect.String {
+			for i := range el {
+				i := i
+				out = append(out, func() giVal { return giHash(giPSym("a", el[i]())) })
+			}
+			out = append(out, func() giVal { return giHash(giPSym("k", el[0]()), giPStr("k 2", el[len(el)-1]())) })
+		} else {
+			out = append(out, func() giVal { return giHash(giPInt(1, el[0]()), giPInt(3, el[len(el)-1]())) })
+			out = append(out, func() giVal { return giHash(giPInt(-2, el[1%len(el)]())) })
+		}
+	}
+	return out
+}
+
+// number of candidates without building anything
+func giNumCandidates(t reflect.Type) int { return len(newGiGb().candidates(t, 0)) }
+
+// values of a clearly wrong kind for a Go type (the conversion must fail)
+func (b *giGb) wrong(t reflect.Type) []func() giVal {
+	c := func(v giVal) func() giVal { return func() giVal { return v } }
+	num := []func() giVal{c(giStr("x")), c(giBool(true)), c(giArr(giInt(1))), c(giRaw("hi")), c(giTm(1)),
+		c(giHash(giPSym("a", giInt(1)))), func() giVal { return b.small("zvleaf", 0) }}
+	switch t.Kind() {
+	case reflect.Int, reflect.Int64, reflect.Int32, reflect.Int8:
+		out := append(num, c(giFlt("1.5")), c(giFlt("-0.25")))
+		if t.Kind() == reflect.Int8 {
+			out = append(out, c(giInt(300)), c(giInt(-200)), c(giInt(128)))
+		}
+		return out
+	case reflect.Uint, reflect.Uint8:
+		return append(num, c(giInt(-1)))
+	case reflect.Float64, reflect.Float32:
+		return num
+	case reflect.String:
+		return []func() giVal{c(giInt(1)), c(giFlt("1.5")), c(giBool(true)), c(giArr(giStr("x"))), c(giTm(2)),
+			c(giHash(giPSym("a", giStr("x")))), c(giChr('a'))}
+	case reflect.Bool:
+		return []func() giVal{c(giInt(1)), c(giInt(0)), c(giStr("true")), c(giFlt("1.5")), c(giArr())}
+	case reflect.Struct:
+		if t == giTimeType {
+			return []func() giVal{c(giInt(5)), c(giStr("2001-02-03")), c(giFlt("1.5")), c(giArr(giTm(1))), c(giBool(true))}
+		}
+		return []func() giVal{c(giInt(1)), c(giStr("x")), c(giArr()), c(giHash(giPSym("i", giInt(1)))),
+			func() giVal { return b.small("zvhost", 0) }, func() giVal { return giArr(b.small(giRegOf(t), 0)) }}
+	case reflect.Ptr:
+		other := "zvhost"
+		return []func() giVal{c(giInt(1)), c(giStr("x")), c(giBool(false)), c(giHash(giPSym("i", giInt(1)))),
+			func() giVal { return b.small(other, 0) }, func() giVal { return giArr(b.small(giRegOf(t.Elem()), 0)) },
+			func() giVal {
+				if giRegOf(t.Elem()) == "zvleaf" {
+					return b.small("zvnode", 0)
+				}
+				return b.small("zvleaf", 0)
+			}}
+	case reflect.Interface:
+		outsider := "zvhost"
+		if t.Name() == "Flyer" {
+			outsider = "zvleaf"
+		}
+		return []func() giVal{c(giInt(1)), c(giStr("x")), c(giHash(giPSym("i", giInt(1)))), c(giArr()),
+			func() giVal { return b.small(outsider, 0) }, func() giVal { return b.small("persondemo", 0) }}
+	case reflect.Slice:
+		if t.Elem().Kind() == reflect.Uint8 {
+			return []func() giVal{c(giInt(1)), c(giBool(true)), c(giTm(1)), c(giHash(giPSym("a", giInt(1))))}
+		}
+		out := []func() giVal{c(giInt(1)), c(giStr("x")), c(giBool(true)), c(giHash(giPSym("a", giInt(1)))), c(giTm(1))}
+		for _, w := range b.wrong(t.Elem()) {
+			w := w
+			out = append(out, func() giVal { return giArr(w()) })
+		}
+		el := b.candidates(t.Elem(), 3)
+		if len(el) > 0 {
+			w := b.wrong(t.Elem())
+			out = append(out, func() giVal { return giArr(el[len(el)-1](), w[0]()) })
+		}
+		return out
+	case reflect.Map:
+		out := []func() giVal{c(giInt(1)), c(giStr("x")), c(giArr(giInt(1))), func() giVal { return b.small("zvleaf", 0) }}
+		for _, w := range b.wrong(t.Elem()) {
+			w := w
+			if t.Key().Kind() == reflect.String {
+				out = append(out, func() giVal { return giHash(giPSym("a", w())) })
+			} else {
+				out = append(out, func() giVal { return giHash(giPInt(1, w())) })
+			}
+		}
+		el := b.candidates(t.Elem(), 3)
+		if t.Key().Kind() == reflect.String {
+			out = append(out, func() giVal { return giHash(giPInt(1, el[0]())) })
+		} else {
+			out = append(out, func() giVal { return giHash(giPSym("a", el[0]())) })
+		}
+		return out
+	}
+	return nil
+}
+
+// the registered types whose records are generated as roots
+var giRootTypes = []string{"zvleaf", "zvodd", "zvbox", "zvnode", "zvwrap", "zvpair", "zvemb", "zvhost",
+	"persondemo", "eventdemo", "plane", "snoopy", "hornet", "hellcat", "weather", "setOfPlanes", "nestouter", "nestinner"}
+
+// reference positions of a root type: how to wrap a child record so that the root refers to it
+type giPos struct {
+	name  string
+	root  string   // registered type of the root
+	child []string // registered types a child may have
+	kind  string   // val | ptr | iface
+	wrap  func(b *giGb, child giVal) []giField
+}
+
+func giOne(k string) func(b *giGb, c giVal) []giField {
+	return func(b *giGb, c giVal) []giField { return []giField{giFld(k, c)} }
+}
+
+var giAnyTypes = []string{"zvleaf", "zvodd", "zvbox", "zvnode", "zvwrap", "zvpair", "zvemb"}
+var giFlyers = []string{"hellcat", "hornet", "snoopy"}
+
+var giPositions = []giPos{
+	{"val", "zvnode", []string{"zvleaf"}, "val", giOne("val")},
+	{"ptr", "zvnode", []string{"zvleaf"}, "ptr", giOne("ptr")},
+	{"next", "zvnode", []string{"zvnode"}, "ptr", giOne("next")},
+	{"any", "zvnode", giAnyTypes, "iface", giOne("any")},
+	{"kids0", "zvnode", []string{"zvnode"}, "ptr", func(b *giGb, c giVal) []giField { return []giField{giFld("kids", giArr(c))} }},
+	{"kids1", "zvnode", []string{"zvnode"}, "ptr", func(b *giGb, c giVal) []giField {
+		return []giField{giFld("kids", giArr(b.small("zvnode", 1), c))}
+	}},
+	{"anys0", "zvnode", giAnyTypes, "iface", func(b *giGb, c giVal) []giField { return []giField{giFld("anys", giArr(c))} }},
+	{"anys1", "zvnode", giAnyTypes, "iface", func(b *giGb, c giVal) []giField {
+		return []giField{giFld("anys", giArr(giNil(), c))}
+	}},
+	{"vals0", "zvnode", []string{"zvleaf"}, "val", func(b *giGb, c giVal) []giField { return []giField{giFld("vals", giArr(c))} }},
+	{"bykey", "zvnode", giAnyTypes, "iface", func(b *giGb, c giVal) []giField {
+		return []giField{giFld("bykey", giHash(giPSym("a", c)))}
+	}},
+	{"next.ptr", "zvnode", []string{"zvleaf"}, "ptr", func(b *giGb, c giVal) []giField {
+		return []giField{giFld("next", b.rec("zvnode", giFld("name", giStr("mid")), giFld("ptr", c)))}
+	}},
+	{"next.any", "zvnode", giAnyTypes, "iface", func(b *giGb, c giVal) []giField {
+		return []giField{giFld("next", b.rec("zvnode", giFld("any", c)))}
+	}},
+	{"any.kids0.val", "zvnode", []string{"zvleaf"}, "val", func(b *giGb, c giVal) []giField {
+		return []giField{giFld("any", b.rec("zvnode", giFld("kids", giArr(b.rec("zvnode", giFld("val", c))))))}
+	}},
+	{"w.ptr", "zvwrap", []string{"zvleaf"}, "ptr", giOne("ptr")},
+	{"w.any", "zvwrap", giAnyTypes, "iface", giOne("any")},
+	{"w.node", "zvwrap", []string{"zvnode"}, "val", giOne("node")},
+	{"w.next", "zvwrap", []string{"zvnode"}, "ptr", giOne("next")},
+	{"p.a", "zvpair", []string{"zvleaf"}, "ptr", giOne("a")},
+	{"p.b", "zvpair", giAnyTypes, "iface", giOne("b")},
+	{"chld", "snoopy", giFlyers, "iface", giOne("chld")},
+	{"friends0", "snoopy", giFlyers, "iface", func(b *giGb, c giVal) []giField { return []giField{giFld("friends", giArr(c))} }},
+	{"carrying1", "snoopy", giFlyers, "iface", func(b *giGb, c giVal) []giField {
+		return []giField{giFld("carrying", giArr(b.small("hornet", 0), c))}
+	}},
+	{"hornet.chld", "hornet", giFlyers, "iface", giOne("chld")},
+	{"plane.friends0", "plane", giFlyers, "iface", func(b *giGb, c giVal) []giField { return []giField{giFld("friends", giArr(c))} }},
+	{"flyers0", "setOfPlanes", giFlyers, "iface", func(b *giGb, c giVal) []giField { return []giField{giFld("flyers", giArr(c))} }},
+	{"user", "eventdemo", []string{"persondemo"}, "val", giOne("user")},
+	{"inner", "nestouter", []string{"nestinner"}, "ptr", giOne("inner")},
+}
+
+func giContains(xs []string, x string) bool {
+	for _, y := range xs {
+		if y == x {
+			return true
+		}
+	}
+	return false
+}
+
+// giMergeFields joins field lists; two lists that set the same slice/map key are merged element-wise when possible
+func giMergeFields(a, b []giField) ([]giField, bool) {
+	out := append([]giField(nil), a...)
+	for _, f := range b {
+		dup := -1
+		for i, g := range out {
+			if g.Key == f.Key {
+				dup = i
+			}
+		}
+		if dup < 0 {
+			out = append(out, f)
+			continue
+		}
+		g := out[dup]
+		if g.V.K == "arr" && f.V.K == "arr" {
+			out[dup].V = giArr(append(append([]giVal(nil), g.V.Xs...), f.V.Xs...)...)
+			continue
+		}
+		if g.V.K == "hash" && f.V.K == "hash" && len(f.V.Ps) == 1 {
+			p := f.V.Ps[0]
+			p.KS = "b"
+			out[dup].V = giHash(append(append([]giPair(nil), g.V.Ps...), p)...)
+			continue
+		}
+		return nil, false
+	}
+	return out, true
+}
+
+func (gg *giGen) systematic(thorough bool) {
+	// E1: one field at a time, every candidate value; every root type
+	for _, reg := range giRootTypes {
+		t := giTypeOfReg(reg)
+		flat := giFlatten(t)
+		for fi, f := range flat {
+			n := giNumCandidates(f.typ)
+			for ci := 0; ci < n; ci++ {
+				b := newGiGb()
+				v := b.candidates(f.typ, 0)[ci]()
+				key := f.key
+				if f.alt != "" && ci%2 == 1 {
+					key = f.alt
+				}
+				fs := []giField{giFld(key, v)}
+				if ci%3 == 2 {
+					fs[0].Str = true // a string key addresses the same field
+				}
+				// every third record also carries another field, so that fields do not only work alone
+				if ci%3 == 1 && len(flat) > 1 {
+					o := flat[(fi+1)%len(flat)]
+					ob := b.candidates(o.typ, 2)
+					fs = append(fs, giFld(o.key, ob[len(ob)-1]()))
+				}
+				root := b.rec(reg, fs...)
+				gg.add("f1", b.graph(root), reg+"."+f.name)
+			}
+		}
+		// the empty record (the demo constructors nestouter/nestinner need an argument)
+		if reg != "nestouter" && reg != "nestinner" {
+			b := newGiGb()
+			gg.add("f0", b.graph(b.rec(reg)), reg)
+		}
+	}
+	// E2: one wrong-kind value at each field (top level)
+	for _, reg := range giRootTypes {
+		t := giTypeOfReg(reg)
+		for _, f := range giFlatten(t) {
+			n := len(newGiGb().wrong(f.typ))
+			for wi := 0; wi < n; wi++ {
+				b := newGiGb()
+				v := b.wrong(f.typ)[wi]()
+				root := b.rec(reg, giFld(f.key, v))
+				gg.add("w1", b.graph(root), "wrong kind at "+reg+"."+f.name)
+			}
+		}
+	}
+	// E3: one undeclared key (top level): unknown name, wrong case of a tagged name, name of a nested field
+	for _, reg := range giRootTypes {
+		t := giTypeOfReg(reg)
+		flat := giFlatten(t)
+		bad := []string{"zz", "Zz", strings.ToUpper(flat[0].key), flat[0].name + "x"}
+		if flat[0].key != flat[0].name {
+			bad = append(bad, flat[0].name) // the Go name of a field that has a json tag
+		}
+		for bi, k := range bad {
+			for variant := 0; variant < 2; variant++ {
+				b := newGiGb()
+				fs := []giField{giFld(k, giInt(1))}
+				if variant == 1 {
+					// together with valid fields, before and after
+					c0 := b.candidates(flat[0].typ, 2)
+					fs = []giField{giFld(flat[0].key, c0[len(c0)-1]()), giFld(k, giInt(1))}
+					if len(flat) > 1 {
+						c1 := b.candidates(flat[len(flat)-1].typ, 2)
+						fs = append(fs, giFld(flat[len(flat)-1].key, c1[len(c1)-1]()))
+					}
+				}
+				_ = bi
+				gg.add("u1", b.graph(b.rec(reg, fs...)), "undeclared key "+k+" in "+reg)
+			}
+		}
+	}
+	// E2'/E3': the same defects one level down, at every reference position
+	for _, p := range giPositions {
+		for _, ct := range p.child {
+			ft := giFlatten(giTypeOfReg(ct))
+			// undeclared key in the child
+			b := newGiGb()
+			child := b.rec(ct, giFld(ft[0].key, b.candidates(ft[0].typ, 2)[0]()), giFld("zz", giInt(1)))
+			gg.add("u2", b.graph(b.rec(p.root, p.wrap(b, child)...)), "undeclared key below "+p.name)
+			// wrong kind in the child (first two fields, two wrong values each)
+			for fi := 0; fi < len(ft) && fi < 2; fi++ {
+				nw := len(newGiGb().wrong(ft[fi].typ))
+				for wi := 0; wi < nw && wi < 2; wi++ {
+					b := newGiGb()
+					child := b.rec(ct, giFld(ft[fi].key, b.wrong(ft[fi].typ)[wi]()))
+					gg.add("w2", b.graph(b.rec(p.root, p.wrap(b, child)...)), "wrong kind below "+p.name)
+				}
+			}
+			// a valid child of each content
+			for k := 0; k < 3; k++ {
+				b := newGiGb()
+				child := b.small(ct, k)
+				fs := p.wrap(b, child)
+				gg.add("n1", b.graph(b.rec(p.root, fs...)), "child at "+p.name)
+			}
+		}
+	}
+	// E4: sharing -- one record referenced from two (three) positions of the same root
+	for i, p := range giPositions {
+		for j, q := range giPositions {
+			if p.root != q.root || j < i {
+				continue
+			}
+			for _, ct := range p.child {
+				if !giContains(q.child, ct) {
+					continue
+				}
+				if !thorough && ct != p.child[0] && (i+j)%3 != 0 {
+					continue
+				}
+				b := newGiGb()
+				child := b.small(ct, 0)
+				fs, ok := giMergeFields(p.wrap(b, child), q.wrap(b, child))
+				if !ok {
+					continue
+				}
+				gg.add("s2", b.graph(b.rec(p.root, fs...)), "shared: "+p.name+" + "+q.name)
+				// a third reference
+				for k, r := range giPositions {
+					if r.root != p.root || k <= j || !giContains(r.child, ct) {
+						continue
+					}
+					if !thorough && (i+j+k)%4 != 0 {
+						continue
+					}
+					b := newGiGb()
+					child := b.small(ct, 1)
+					fs, ok := giMergeFields(p.wrap(b, child), q.wrap(b, child))
+					if !ok {
+						continue
+					}
+					fs, ok = giMergeFields(fs, r.wrap(b, child))
+					if !ok {
+						continue
+					}
+					gg.add("s3", b.graph(b.rec(p.root, fs...)), "shared: "+p.name+" + "+q.name+" + "+r.name)
+				}
+			}
+		}
+	}
+	// E4': diamonds and chains over three records
+	{
+		b := newGiGb()
+		l := b.small("zvleaf", 0)
+		a := b.rec("zvnode", giFld("name", giStr("a")), giFld("ptr", l))
+		c := b.rec("zvnode", giFld("name", giStr("c")), giFld("ptr", l))
+		gg.add("s4", b.graph(b.rec("zvnode", giFld("kids", giArr(a, c, a)))), "diamond through kids")
+		b = newGiGb()
+		l = b.small("zvleaf", 1)
+		a = b.rec("zvnode", giFld("any", l))
+		gg.add("s4", b.graph(b.rec("zvnode", giFld("next", a), giFld("anys", giArr(l, a)))), "diamond iface")
+		b = newGiGb()
+		l = b.small("zvleaf", 1)
+		a = b.rec("zvpair", giFld("a", l), giFld("b", l))
+		gg.add("s4", b.graph(b.rec("zvpair", giFld("a", l), giFld("b", a))), "pair of pairs")
+		b = newGiGb()
+		h := b.small("hellcat", 0)
+		ho := b.rec("hornet", giFld("chld", h), giFld("friends", giArr(h)))
+		gg.add("s4", b.graph(b.rec("snoopy", giFld("chld", h), giFld("friends", giArr(h, ho)), giFld("carrying", giArr(ho, h)))), "flyers")
+		b = newGiGb()
+		l = b.small("zvleaf", 0)
+		gg.add("s4", b.graph(b.rec("zvnode", giFld("vals", giArr(l, l)), giFld("val", l))), "value copies")
+	}
+	// E5: records that reach themselves
+	{
+		type cyc struct {
+			name string
+			mk   func(b *giGb) giVal
+		}
+		cs := []cyc{
+			{"self next", func(b *giGb) giVal {
+				r := b.rec("zvnode", giFld("name", giStr("n")))
+				b.set(r, giFld("next", r))
+				return r
+			}},
+			{"self any", func(b *giGb) giVal { r := b.rec("zvnode"); b.set(r, giFld("any", r)); return r }},
+			{"self kids", func(b *giGb) giVal { r := b.rec("zvnode"); b.set(r, giFld("kids", giArr(r))); return r }},
+			{"self bykey", func(b *giGb) giVal { r := b.rec("zvnode"); b.set(r, giFld("bykey", giHash(giPSym("me", r)))); return r }},
+			{"two cycle", func(b *giGb) giVal {
+				r := b.rec("zvnode", giFld("name", giStr("a")))
+				c := b.rec("zvnode", giFld("name", giStr("b")), giFld("next", r))
+				b.set(r, giFld("next", c))
+				return r
+			}},
+			{"inner cycle", func(b *giGb) giVal {
+				c := b.rec("zvnode", giFld("name", giStr("b")))
+				b.set(c, giFld("next", c))
+				return b.rec("zvnode", giFld("next", c))
+			}},
+			{"pair self", func(b *giGb) giVal { r := b.rec("zvpair"); b.set(r, giFld("b", r)); return r }},
+			{"snoopy self", func(b *giGb) giVal { r := b.rec("snoopy"); b.set(r, giFld("chld", r)); return r }},
+			{"wrap cycle", func(b *giGb) giVal {
+				n := b.rec("zvnode")
+				r := b.rec("zvwrap", giFld("next", n))
+				b.set(n, giFld("any", r))
+				return r
+			}},
+		}
+		for _, c := range cs {
+			b := newGiGb()
+			gg.add("c1", b.graph(c.mk(b)), "cycle: "+c.name)
+		}
+	}
+}
+
+// random record of a registered type
+func (gg *giGen) randRec(b *giGb, reg string, depth int, pool map[string][]giVal) giVal {
+	r := gg.r
+	t := giTypeOfReg(reg)
+	var fs []giField
+	for _, f := range giFlatten(t) {
+		if r.intn(100) < 45 {
+			continue
+		}
+		key := f.key
+		if f.alt != "" && r.bool() {
+			key = f.alt
+		}
+		fs = append(fs, giField{Key: key, Str: r.intn(10) == 0, V: gg.randVal(b, f.typ, depth, pool)})
+	}
+	// shuffle the fields: the order of the pairs must not matter
+	for i := len(fs) - 1; i > 0; i-- {
+		j := r.intn(i + 1)
+		fs[i], fs[j] = fs[j], fs[i]
+	}
+	if len(fs) == 0 && reg == "nestinner" {
+		fs = append(fs, giFld("hello", giStr("h")))
+	}
+	if len(fs) == 0 && reg == "nestouter" {
+		fs = append(fs, giFld("inner", giNil()))
+	}
+	v := b.rec(reg, fs...)
+	pool[reg] = append(pool[reg], v)
+	return v
+}
+
+func (gg *giGen) randRef(b *giGb, regs []string, depth int, pool map[string][]giVal) giVal {
+	r := gg.r
+	reg := pick(r, regs)
+	if p := pool[reg]; len(p) > 0 && r.intn(100) < 35 {
+		return pick(r, p)
+	}
+	if depth >= 3 {
+		return b.small(reg, r.intn(3))
+	}
+	return gg.randRec(b, reg, depth+1, pool)
+}
+
+func (gg *giGen) randVal(b *giGb, t reflect.Type, depth int, pool map[string][]giVal) giVal {
+	r := gg.r
+	switch t.Kind() {
+	case reflect.Struct:
+		if t != giTimeType {
+			return gg.randRef(b, []string{giRegOf(t)}, depth, pool)
+		}
+	case reflect.Ptr:
+		if r.intn(6) == 0 {
+			return giNil()
+		}
+		return gg.randRef(b, []string{giRegOf(t.Elem())}, depth, pool)
+	case reflect.Interface:
+		if r.intn(6) == 0 {
+			return giNil()
+		}
+		return gg.randRef(b, giImplementers(t), depth, pool)
+	case reflect.Slice:
+		if t.Elem().Kind() != reflect.Uint8 {
+			if r.intn(8) == 0 {
+				return giNil()
+			}
+			n := r.intn(4)
+			xs := []giVal{}
+			for i := 0; i < n; i++ {
+				xs = append(xs, gg.randVal(b, t.Elem(), depth, pool))
+			}
+			return giArr(xs...)
+		}
+	case reflect.Map:
+		if r.intn(8) == 0 {
+			return giNil()
+		}
+		n := r.intn(3)
+		ps := []giPair{}
+		for i := 0; i < n; i++ {
+			v := gg.randVal(b, t.Elem(), depth, pool)
+			if t.Key().Kind() == reflect.String {
+				if r.bool() {
+					ps = append(ps, giPSym(string(rune('a'+i)), v))
+				} else {
+					ps = append(ps, giPStr(string(rune('p'+i))+" q", v))
+				}
+			} else {
+				ps = append(ps, giPInt(int64(i*2-1), v))
+			}
+		}
+		return giHash(ps...)
+	}
+	c := b.candidates(t, 3)
+	return c[r.intn(len(c))]()
+}
+
+func (gg *giGen) random(n int) {
+	for i := 0; i < n; i++ {
+		b := newGiGb()
+		pool := map[string][]giVal{}
+		reg := pick(gg.r, giRootTypes)
+		if gg.r.intn(3) == 0 {
+			reg = pick(gg.r, []string{"zvnode", "zvwrap", "zvpair", "snoopy"})
+		}
+		root := gg.randRec(b, reg, 1, pool)
+		g := b.graph(root)
+		note := "random"
+		// one defect in a random record: an undeclared key or a wrong-kind value somewhere
+		switch gg.r.intn(5) {
+		case 0:
+			j := gg.r.intn(len(g.Nodes))
+			g.Nodes[j].Fs = append(g.Nodes[j].Fs, giFld("zz", giInt(1)))
+			note = "random + undeclared key"
+		case 1:
+			j := gg.r.intn(len(g.Nodes))
+			fl := giFlatten(giTypeOfReg(g.Nodes[j].Tn))
+			f := pick(gg.r, fl)
+			w := b.wrong(f.typ)
+			if len(w) > 0 {
+				v := w[gg.r.intn(len(w))]()
+				g.Nodes = b.g.Nodes
+				var fs []giField
+				for _, x := range g.Nodes[j].Fs {
+					if x.Key != f.key && x.Key != f.alt {
+						fs = append(fs, x)
+					}
+				}
+				g.Nodes[j].Fs = append(fs, giFld(f.key, v))
+				note = "random + wrong kind"
+			}
+		}
+		if _, cyc := g.shape(); cyc {
+			continue
+		}
+		gg.add("r", g, note)
+	}
+}
+
+// ---------------------------------------------------------------- driver
+
 func init() {
 	register("gointerop", "C10: records <-> Go structs (togo / _method Echo), dumped by reflection", func(args []string) int {
 		if len(args) > 0 && args[0] == "debug" {
 			return giDebug(args[1:])
 		}
-		fatal("not yet")
-		return 2
+		if len(args) > 0 && args[0] == "-worker" {
+			return giWorker()
+		}
+		var list bool
+		c := commonFlags("gointerop", args, func(fs *flag.FlagSet) {
+			fs.BoolVar(&list, "list", false, "print the generated script texts instead of running them")
+		})
+		w := newWriter(c.out)
+		defer w.close()
+		if c.replay != "" {
+			env := newGiEnv()
+			readLines(c.replay, func(line []byte) {
+				var cs giCase
+				if err := json.Unmarshal(line, &cs); err != nil {
+					fatal("bad replay file: %v", err)
+				}
+				if cs.Kind == "types" {
+					w.write(giTypesCase(env))
+					return
+				}
+				giRun(env, &cs)
+				w.write(&cs)
+			})
+			return 0
+		}
+		gg := &giGen{r: newRng(c.seed, 10), seen: map[string]bool{}}
+		gg.systematic(c.thorough())
+		n := c.n
+		if n == 0 {
+			n = 1200
+			if c.thorough() {
+				n = 20000
+			}
+		}
+		gg.random(n)
+		env := newGiEnv()
+		if c.shard == 0 {
+			w.write(giTypesCase(env))
+		}
+		done := 0
+		for i, cs := range gg.cases {
+			if !c.mine(i) {
+				continue
+			}
+			if list {
+				fmt.Printf("---- %s (%s)\n%s", cs.ID, cs.Note, cs.Text)
+				continue
+			}
+			if done%200 == 199 {
+				env = newGiEnv()
+			}
+			done++
+			giRun(env, cs)
+			w.write(cs)
+		}
+		return 0
 	})
 }
 
-// zv gointerop debug TEXT...: evaluate texts; a text of the form "@name" dumps
-// the Go shadow struct of the record bound to name; "@@" dumps the last Echo argument.
+// zv gointerop debug TEXT...: evaluate texts; "@name" dumps the Go shadow
+// struct of the record bound to name; "@@" dumps the last Echo argument.
 func giDebug(args []string) int {
 	env := newGiEnv()
 	for _, t := range args {
@@ -173,11 +1672,13 @@ func giDebug(args []string) int {
 			continue
 		}
 		o := evalSafe(env, t+"\n")
-		b, _ := json.Marshal(projOutcome(env, o))
-		fmt.Printf("%s\n  => %s", t, b)
+		var b []byte
 		if o.Kind == "val" {
-			fmt.Printf(" printed=%s", trunc(o.Val.SexpString(nil), 400))
+			b, _ = json.Marshal(giProj(o.Val, 0))
+		} else {
+			b, _ = json.Marshal(projOutcome(env, o))
 		}
+		fmt.Printf("%s\n  => %s", t, b)
 		if o.Err != "" {
 			e := o.Err
 			if i := strings.Index(e, "stack trace"); i > 0 {
